@@ -65,6 +65,10 @@ def run_case(case):
             else:
                 init[key] = val
         init["pad"] = "p" * 64            # the value that gets resized
+        if case["seed"] % 3 == 0:
+            init["empty-value"] = "" if case["seed"] % 2 else b""
+        if case["seed"] % 5 == 0:
+            init[""] = "value of the empty key"
         if case["big"]:
             init["big"] = "B" * (1 << 20)
         model = {b(k): b(v) for k, v in init.items()}
@@ -103,7 +107,7 @@ def run_case(case):
                 newlen = max(0, cur_pad + d)
                 upd["pad"] = "p" * newlen
             if op in ("add", "mix"):
-                upd["new%d" % si] = "n" * int(r2.integers(0, 30)) + "ü"
+                upd["new%d" % si] = ("n" * int(r2.integers(0, 30)) + "ü") if r2.random() < 0.8 else ""
             if op in ("remove", "mix"):
                 others = [k for k in model if k not in (b"pad",)]
                 if others:
@@ -189,6 +193,16 @@ def run_case(case):
                 api = {b(k): b(v) for k, v in pf2.key_value_metadata.items() if b(k) != b"pandas"}
                 if api != model:
                     res["failures"].append({"kind": "api_key_value_metadata_differs_from_model", **ctx})
+                # the view decodes what is valid UTF-8 to str - also the empty string
+                for k_, v_ in pf2.key_value_metadata.items():
+                    for what_, x_ in (("key", k_), ("value", v_)):
+                        if isinstance(x_, bytes):
+                            try:
+                                x_.decode("utf8")
+                                res["failures"].append({"kind": "api_key_value_left_as_bytes_although_utf8", "what": what_, "repr": repr(x_)[:40], **ctx})
+                            except UnicodeDecodeError:
+                                pass
+                counters["api_views_typed"] = counters.get("api_views_typed", 0) + 1
                 t2 = pf2.to_pandas()
                 if not t2.equals(table0):
                     res["failures"].append({"kind": "table_changed_after_update", **ctx})
